@@ -9,7 +9,25 @@ import (
 // Lock discipline: a contract clause `guarded Type.field by <mutex expr>` turns every load and
 // store of that field into an obligation held(<mutex expr>) (kind "lock").
 func (ex *Exec) lockCheck(p PtrV, write bool, pos token.Pos) {
-	if ex.top == nil || ex.top.contract == nil || len(ex.top.contract.Guarded) == 0 || ex.inYield {
+	if ex.top == nil || ex.top.contract == nil || ex.inYield {
+		return
+	}
+	// captured variables declared `atomic`: every plain load/store is a violation of the discipline
+	for _, name := range ex.top.contract.Atomic {
+		for i, fv := range ex.top.fn.FreeVars {
+			if fv.Name() != name {
+				continue
+			}
+			if c, ok := ex.top.free[i].(PtrV); ok && c.Kind == pObj && p.Kind == pObj && c.Ref.S == p.Ref.S {
+				what := "read"
+				if write {
+					what = "write"
+				}
+				ex.vc.Oblige("lock", "non-atomic "+what+" of "+name, ex.st.pc, TFalse, ex.posString(pos))
+			}
+		}
+	}
+	if len(ex.top.contract.Guarded) == 0 {
 		return
 	}
 	if p.Kind != pObj || len(p.Path) == 0 {
